@@ -82,6 +82,52 @@ def takeGraph (x : TG) (indices : List Int) (axis : Int) : TG := .gather axis x 
 def concatGraph (x y : TG) (axis : Int) : TG := .concat axis x y
 def stackGraph (x y : TG) (axis : Int) : TG := .concat axis (.unsqueeze x (ivec [axis])) (.unsqueeze y (ivec [axis]))
 
+/-! ## reductions (`_numericimpl.py`: `sum/prod/min/max/all/any` on integer and boolean dtypes) -/
+
+/-- `_via_i64_f64` / `via_upcast(int_dtype=int64)` on an integer dtype with ONNX code `t`. -/
+def viaI64 (t : Nat) (f : TG → TG) (x : TG) : TG := if t = 7 then f x else .cast t (f (.cast 7 x))
+
+/-- `x.astype(to)` for `x` of dtype `from` (same dtype: a copy, no node). -/
+def astypeG (frm to : Nat) (x : TG) : TG := if frm = to then x else .cast to x
+
+def isUnsignedCode (t : Nat) : Bool := t == 2 || t == 4 || t == 12 || t == 13
+def bitsOfCode (t : Nat) : Nat :=
+  if t == 2 || t == 3 then 8 else if t == 4 || t == 5 then 16 else if t == 6 || t == 12 then 32 else 64
+
+/-- `_determine_reduce_op_dtype(x, None, maximum_unsigned_dtype)` on integer dtypes (`none` = TypeError). -/
+def accCode (t maxU : Nat) : Option Nat :=
+  if isUnsignedCode t then (if bitsOfCode t ≤ bitsOfCode maxU then some maxU else none) else some 7
+
+def reduceCore (k : RKind) (keepdims : Bool) (axis : AxisArg) (rank : Nat) (x : TG) : TG :=
+  .reduce k keepdims (axis != .none) x (ivec (normalizeAxes rank axis))
+
+/-- `sum(x, axis=, dtype=, keepdims=)`. -/
+def sumGraph (x : TG) (t : Nat) (dtype : Option Nat) (rank : Nat) (axis : AxisArg) (keepdims : Bool) : Option TG :=
+  (match dtype with | some d => some d | none => accCode t 13).map (fun acc =>
+    viaI64 acc (reduceCore .sum keepdims axis rank) (astypeG t acc x))
+
+/-- `prod(x, axis=, dtype=, keepdims=)`. -/
+def prodGraph (x : TG) (t : Nat) (dtype : Option Nat) (rank : Nat) (axis : AxisArg) (keepdims : Bool) : Option TG :=
+  (match dtype with | some d => some d | none => accCode t 12).map (fun acc =>
+    viaI64 acc (reduceCore .prod keepdims axis rank) (astypeG t acc x))
+
+def minGraph (x : TG) (t : Nat) (rank : Nat) (axis : AxisArg) (keepdims : Bool) : TG :=
+  viaI64 t (reduceCore .min keepdims axis rank) x
+def maxGraph (x : TG) (t : Nat) (rank : Nat) (axis : AxisArg) (keepdims : Bool) : TG :=
+  viaI64 t (reduceCore .max keepdims axis rank) x
+
+/-- `x != 0` on an integer array (through int64 unless it is int64), `x` itself on a boolean one. -/
+def truthy (x : TG) (t : Nat) : TG :=
+  if t = 9 then x else .not (.bin .equal (if t = 7 then x else .cast 7 x) (iscalar 0))
+
+/-- `all(x, axis=, keepdims=)`: `min((x != 0).astype(int8)).astype(bool)`. -/
+def allGraph (x : TG) (t : Nat) (rank : Nat) (axis : AxisArg) (keepdims : Bool) : TG :=
+  .cast 9 (viaI64 3 (reduceCore .min keepdims axis rank) (.cast 3 (truthy x t)))
+
+/-- `any(x, axis=, keepdims=)`: `max((x != 0).astype(int8)).astype(bool)`. -/
+def anyGraph (x : TG) (t : Nat) (rank : Nat) (axis : AxisArg) (keepdims : Bool) : TG :=
+  .cast 9 (viaI64 3 (reduceCore .max keepdims axis rank) (.cast 3 (truthy x t)))
+
 namespace Spec
 
 /-- NumPy `flip` over a set of axes. -/
